@@ -709,7 +709,7 @@ def run(tier):
     samples = []
     ctx = mp.get_context("fork")
     wjobs = []
-    dim_choices = {0: [()], 1: [(2,), (0,)], 2: [(2, 1), (1, 2)], 3: [(2, 1, 2)]}
+    dim_choices = {0: [()], 1: [(2,), (0,)], 2: [(2, 1), (1, 2), (2, 2)], 3: [(2, 1, 2)]}
     for n in range(0, 3 if tier == "quick" else 4):
         for f in all_formats(n):
             for dims in dim_choices[n]:
